@@ -2,6 +2,7 @@ package drv
 
 import (
 	"bytes"
+	"errors"
 	"context"
 	"fmt"
 	"os"
@@ -89,7 +90,7 @@ func runCmd(timeout time.Duration, env []string, dir string, name string, args .
 	}
 	cmd.SysProcAttr = &syscall.SysProcAttr{Setpgid: true}
 	cmd.Cancel = func() error { return syscall.Kill(-cmd.Process.Pid, syscall.SIGKILL) }
-	cmd.WaitDelay = 2 * time.Second
+	cmd.WaitDelay = 20 * time.Second
 	var so, se bytes.Buffer
 	cmd.Stdout = &so
 	cmd.Stderr = &se
@@ -101,6 +102,10 @@ func runCmd(timeout time.Duration, env []string, dir string, name string, args .
 	if err != nil {
 		if ee, ok := err.(*exec.ExitError); ok {
 			code = ee.ExitCode()
+		} else if errors.Is(err, exec.ErrWaitDelay) {
+			// the process is gone but its output could not be collected in time (busy machine):
+			// treated like a time-out, the caller tries again
+			return so.String(), se.String(), -1, true
 		} else {
 			Infra("cannot run %s: %v", name, err)
 		}
